@@ -524,7 +524,7 @@ func flushDischargeRule(o *Ob) {
 	o.Site(del, "DeleteIfNotModified")
 	o.Guarded(del, "delete-guard", "removing resolved alerts / destroying the group", ok)
 	o.Check(e.Arg(del, 0) == "recv.alerts" && e.Arg(del, 2) == "true", "delete-args", "flush must delete from its own store with destroyIfEmpty", del)
-	o.Forced(fn, "delete-forced", "after a successful notification the resolved alerts must be removed (they would otherwise be notified as resolved again)", IsInstr(del), ok)
+	o.ForcedAfter(nf, "delete-forced", "after a successful notification the resolved alerts must be removed (they would otherwise be notified as resolved again)", IsInstr(del), ok)
 	for _, name := range []string{"(*am/dispatch.aggrGroup).recordResolvedEvents", "invoke:am/marker.AlertMarker.Delete"} {
 		for _, c := range e.Calls(fn, name) {
 			o.Guarded(c, "discharge-guard|"+name, name, ok)
